@@ -17,7 +17,7 @@ def sh(cmd, cwd=None, env=None, timeout=3600):
     e = dict(os.environ)
     e["CARGO_NET_OFFLINE"] = "true"
     if cwd and cwd.startswith("/tmp/seedwt-"):
-        e["CARGO_TARGET_DIR"] = "/tmp/seed_target"
+        e["CARGO_TARGET_DIR"] = os.environ.get("EVAL_SEED_TARGET", "/tmp/seed_target")
     if env:
         e.update(env)
     r = subprocess.run(cmd, shell=True, cwd=cwd, env=e, stdout=subprocess.PIPE, stderr=subprocess.STDOUT, text=True, timeout=timeout)
@@ -98,6 +98,19 @@ def main():
     finally:
         sh("git -C /repo worktree remove --force %s" % wt)
         shutil.rmtree(wt, ignore_errors=True)
+    if os.environ.get("EVAL_SEED_CONFIRM_ONLY"):
+        # confirmation only (several seeds at a time); the checks are then run by tools/recheck_seeds.py on scratch copies
+        meta["checks_fired"] = []
+        meta["caught"] = False
+        meta["caught_by_own_property"] = False
+        if meta.get("confirmed"):
+            d = os.path.join(VERIF, "seeded", sid)
+            os.makedirs(d, exist_ok=True)
+            shutil.copy2(patch, os.path.join(d, "patch.diff"))
+            shutil.copy2(demo, os.path.join(d, "demo.rs"))
+            json.dump(meta, open(os.path.join(d, "meta.json"), "w"), indent=1)
+            print("stored (checks pending)", d)
+        return 0
     # the checks, the prescribed way: apply to /repo, run, undo
     ev = tempfile.mkdtemp(prefix="seedev-")
     try:
